@@ -317,3 +317,15 @@ UNITS['find_is'] = {
 for part in ('init', 'iter', 'exit'):
     ob(name='find_is.%s' % part, kind='IS', props=['C02'], unit='find_is', harness='h_find_is.c', entry='is_' + part, outline={'FIND': 'find'}, enforce='find__' + part,
        bound='none: lists of any length (inductive invariant over the outlined loop of the real find(); matches()/sequence_cost() abstracted by ghost fields)', min_reach=2)
+
+UNITS['seq_is'] = {
+    'opaque': [], 'dyn_types': [],
+    'ghost_fields': {r'^sequence_matcher$': ['unsigned long g_pos']},
+    'roots': {'COST': '13sequence_type4costE', 'IS_COMPLETED': '13sequence_type12is_completedEv', 'SM': 'rec:^sequence_matcher$', 'ST': 'rec:^sequence_type$', 'LE': r'rec:^list_elem<sequence_matcher>$'},
+}
+for fn, short, e in (('COST', 'cost', 'c'), ('IS_COMPLETED', 'completed', 'k')):
+    for part in ('init', 'iter', 'exit'):
+        ob(name='seq_is.%s.%s' % (short, part), kind='IS', props=['C02', 'C05', 'C06'] if short == 'cost' else ['C06'], unit='seq_is', harness='h_seq_is.c', entry='%s_%s' % (e, part),
+           outline={'COST': 'cost', 'IS_COMPLETED': 'completed'}, enforce='%s__%s' % (short, part), min_reach=1,
+           bound='none: sequences of any length < 2^32 handles (inductive invariant over the outlined loop of the real function)')
+LEVELS['C06'] = 'proof'; LEVELS['C05'] = 'proof'
